@@ -99,12 +99,13 @@ def run(ctx):
     ctx.exhaustive = True
     ctx.rule = ("one case per transition of the IniCsv generators (INI text + set() history + expected lookups; CSV table + "
                 "expected file text), executed 4 (INI: write/destructor/operator[]/write(name)) resp. 4+1 (CSV: int/double, cell-wise/"
-                "row-wise, data()/nextRow(), specification's text) times on the real classes (quick tier: half of the variants "
-                "per case); non-trivial = at least one set() / two cells; "
+                "row-wise, data()/nextRow(), specification's text) times on the real classes (INI: two of the four per case, chosen "
+                "by a hash; CSV quick tier: two of the four); non-trivial = at least one set() / two cells; "
                 "distinct = distinct case lines (hash)")
     renv = {"C18_LOG": logbase, "VERIF_TMP": ctx.tmp}
+    renv["C18_HALF_INI"] = "1"      # two of the four write paths per INI case, chosen by a hash of the case (both tiers)
     if ctx.quick:
-        renv["C18_HALF"] = "1"      # two of the four write paths / CSV variants per case (all of them in the thorough tier)
+        renv["C18_HALF_CSV"] = "1"  # two of the four CSV variants per table (all four in the thorough tier)
     ctx.replay(rep, cases, label="R/IniCsv-ini", timeout=ctx.pick(900, 5400), env=renv)
     os.unlink(cases)
     _validate_logs(ctx, logbase, "V/IniCsv-ini-replayed", ctx.pick(8, 16))
